@@ -11,17 +11,15 @@ from .c02_classify import classify_e2e, classify_text, F
 
 
 def models_built(ck):
-    need = ["Model/SqlPrint.vo", "Model/EvalDoc.vo", "Model/PrqlExpr.vo", "Model/SqlSem.vo"]
-    ok = all(os.path.exists(os.path.join(COQ, p)) for p in need)
-    if not ok or not ck.proof["ok"]:
-        # the property file failed: the models may still build (Model/ has no proofs)
-        from ..common import coq_make, Lock
-        with Lock("coq"):
-            rc, out, err = coq_make(need)
-        ok = rc == 0
-        if not ok:
-            ck.coverage["model_build_error"] = (out + err)[-1500:]
-    return ok
+    """the executable models (Model/ has no proofs, so they build even when a theorem is broken); always run
+    make: it is incremental, and a stale .vo would be rejected by coqc"""
+    need = ["Model/SqlPrint.vo", "Model/EvalDoc.vo", "Model/PrqlExpr.vo", "Model/SqlSem.vo", "Model/SqlCompat.vo", "Model/C02Probe.vo"]
+    from ..common import coq_make, Lock
+    with Lock("coq"):
+        rc, out, err = coq_make(need)
+    if rc != 0:
+        ck.coverage["model_build_error"] = (out + err)[-1500:]
+    return rc == 0
 
 
 # ----------------------------------------------------------------------------- (a) parser
@@ -49,7 +47,9 @@ def stream_parse(ck, model_ok):
             e = a["ok"]["stmts"][0]["VarDef"]["value"]["Pipeline"]["exprs"][1]["FuncCall"]["args"][0]["Tuple"][0]
             impl.append(G.ser_json(e, binidx, unidx))
         except (KeyError, IndexError, ValueError) as ex:
-            impl.append(("shape", str(ex)))
+            # prqlc read the text as something that is not one operator expression (a function call such as
+            # `x * +` applied to `!x`, an open range): outside the modelled grammar, like a parse error
+            impl.append(None)
     model = None
     if model_ok:
         try:
@@ -58,7 +58,7 @@ def stream_parse(ck, model_ok):
             ck.coverage["parse_model_error"] = str(ex)[-400:]
     for k, (toks, src) in enumerate(cases):
         ck.count("parse", src, nontrivial=impl[k] is not None)
-        ck.stat("parse", "impl:" + ("error" if impl[k] is None else "tree"))
+        ck.stat("parse", "impl:" + ("not-an-operator-expression" if impl[k] is None else "tree"))
         ck.stat("parse", "ops:%d" % sum(1 for t in toks if t[0] == "O"))
         if model is None:
             continue
@@ -74,7 +74,10 @@ def stream_parse(ck, model_ok):
 
 # ----------------------------------------------------------------------------- (b) SQL text + end-to-end
 
-def stream_sql_and_e2e(ck, model_ok):
+def stream_sql_and_e2e(ck, model_ok, tm=None):
+    import time
+    tm = tm if tm is not None else {}
+    _t = time.time()
     rows = M.table_rows()
     cases = []          # (label, tree, row indices)
     allrows = list(range(len(rows)))
@@ -101,19 +104,31 @@ def stream_sql_and_e2e(ck, model_ok):
     model = [None] * len(cases)
     if model_ok:
         exprs = []
+        envs = "[" + "; ".join("[%s]" % "; ".join(G.coq_val(v) for v in env) for env in probe) + "]"
         for _, t, _ in cases:
-            envs = "; ".join("ship (eval_doc [%s] e)" % "; ".join(G.coq_val(v) for v in env) for env in probe)
-            exprs.append("let e := %s in (sql_text d_sqlite e, sql_text d_generic e, corner e, [%s], "
-                         "(engine_reading d_sqlite e, engine_reading d_generic e), (bad_triples d_sqlite e, bad_triples d_generic e))"
-                         % (G.coq(t), envs))
+            exprs.append("probe %s envs" % G.coq(t))
         try:
-            model = coq_eval(M.HEADER.replace("Model.EvalDoc", "Model.EvalDoc Model.SqlSem Model.SqlCompat"), exprs)
+            # interleave so that every coqc shard gets the same mix of small and large trees
+            order = sorted(range(len(exprs)), key=lambda k: (k % 16, k))
+            raw0 = coq_eval(M.HEADER.replace("Model.EvalDoc", "Model.EvalDoc Model.SqlSem Model.SqlCompat Model.C02Probe")
+                            + "Definition envs : list (list val) := %s.\n" % envs, [exprs[k] for k in order])
+            raw = [None] * len(exprs)
+            for pos, k in enumerate(order):
+                raw[k] = raw0[pos]
+            # ( [ (text, reading, (triples, pairs)) ; (...) ], corner, [shipped] )  ->  the layout used below
+            model = []
+            for x in raw:
+                per, corner, shipped = x
+                model.append((per[0][0], per[1][0], corner, shipped, [per[0][1], per[1][1]], [per[0][2], per[1][2]]))
         except RuntimeError as ex:
             ck.coverage["sql_model_error"] = str(ex)[-600:]
             model = [None] * len(cases)
+    tm['coq_eval_models'] = round(time.time() - _t, 1)
     setup = M.setup_sql(rows)
     for di, dialect in enumerate(M.DIALECTS):
+        _t = time.time()
         comp = M.compile_batch(srcs, dialect)
+        tm['compile_' + dialect] = round(time.time() - _t, 1)
         # --- text correspondence
         for k, (label, t, ridx) in enumerate(cases):
             got = comp[k]
@@ -149,6 +164,8 @@ def stream_sql_and_e2e(ck, model_ok):
                     results[k] = [row[0] for row in r["rows"]]
                 else:
                     results[k] = {"exec_err": r.get("exec_err", json.dumps(r)[:200])}
+        tm['exec_' + dialect] = round(time.time() - _t, 1)
+        _t = time.time()
         for k in todo:
             label, t, ridx = cases[k]
             src = srcs[k]
@@ -205,6 +222,7 @@ def stream_sql_and_e2e(ck, model_ok):
                     src, dialect, comp[k][0], first_bad["row"], first_bad["expected"], first_bad["observed"], bad, compared), case, classify_e2e)
             elif k % 151 == 0:
                 ck.sample({"stream": "e2e", "dialect": dialect, "expr": src, "sql": comp[k][0], "rows_compared": compared})
+    tm['compare_last'] = round(time.time() - _t, 1)
     # --- the python mirror of eval_doc agrees with the Coq definition on the probe rows
     if model_ok:
         for k, (label, t, ridx) in enumerate(cases):
